@@ -33,7 +33,7 @@ Section Model.
   Definition gather (v : vec) (idx : list nat) : vec := map (nthT v) idx.                 (* v[idx] *)
   Definition submat (A : mat) (idx : list nat) : mat := map (fun i => gather (row A i) idx) idx.   (* A[idx][:, idx] *)
   Definition sel {B} (P : list bool) (v : list B) : list B := map snd (filter fst (combine P v)).  (* v[P], P a bool mask *)
-  Definition idx_of (P : list bool) : list nat := sel P (seq 0 (length P)).              (* np.arange(n)[P] *)
+  Definition idx_of (P : list bool) : list nat := filter (fun i => nth i P false) (seq 0 (length P)).   (* np.arange(n)[P] *)
   Fixpoint find_pos (t : nat) (idx : list nat) : option nat :=
     match idx with
     | [] => None
